@@ -13,13 +13,6 @@ def srcRank : SrcSt → Nat
   | .preCheck => 0 | .preBlocking => 1 | .preSwitch => 2 | .scanning => 3 | .finalSwitch => 4
   | .switchCommitted => 5
 
-/-- the DUMP payload the lock holder may still RESTORE -/
-def CritPc.held : CritPc → Option Val
-  | .pPttl d => d
-  | .pRestore v => some v
-  | .uFast (.restore v) => some v
-  | _ => none
-
 def ScanPc.held : ScanPc → Option Val
   | .restore _ v => some v
   | _ => none
@@ -57,12 +50,6 @@ def CritPc.isPull : CritPc → Bool
   | .pEntryNone => true
   | .pRestore _ => true
   | _ => false
-
-/-- dump held by the key-lock holder, if any -/
-def critDump (s : Sys) : Option Val :=
-  match s.crit with
-  | some k => k.pc.held
-  | none => none
 
 /-- the value is not only at the source any more: deleting the source copy loses nothing -/
 def Moved (s : Sys) : Prop := s.dst.isSome = true ∨ s.src = none
